@@ -567,6 +567,11 @@ def c02_k(ctx: Ctx):
         types.append(ts)
     first_key = next((i for i, ts in enumerate(types) if ts == ["KeyError"]), None)
     first_lookup = next((i for i, ts in enumerate(types) if any(t in ("LookupError", "Exception", "<bare>", "BaseException") for t in ts)), None)
+    # one handler for LookupError that tells the two apart by `isinstance(<error>, KeyError)` is the same discipline
+    dispatch = any(isinstance(c, ast.Call) and isinstance(c.func, ast.Name) and c.func.id == "isinstance" and len(c.args) == 2 and "KeyError" in canon(c.args[1])
+                   for h in tr.handlers for st in h.body for c in ast.walk(st))
+    if dispatch and first_key is None:
+        return [ctx.ok(R, f, tr, "the handler tells KeyError (unknown id) from the other LookupErrors by isinstance", construct=k)]
     if first_key is None or (first_lookup is not None and first_lookup < first_key):
         return [ctx.viol(R, f, tr, f"the failures of open_job(id=...) are handled by {types}: 'no job with this id' (KeyError) is not handled on its own before the ambiguity (LookupError), "
                          "so an abbreviated id that matches nothing is reported as ambiguous (or the other way round)", construct=k)]
